@@ -4,24 +4,19 @@ import PkgModel.Generated.SpdxUnicode
 /-!
 # Model of `packaging.licenses.canonicalize_license_expression` (as the code is)
 
-The function is mirrored step by step, including its detours:
+The function is mirrored step by step:
 
 * `replace("(", " ( ").replace(")", " ) ")` and `str.split()` — white space is what CPython's
   `str.isspace` says (`Gen.SpdxUnicode.spaces`, regenerated from the running interpreter);
-* the `license_refs` dict comprehension (keyed by the lower-cased token *including* a trailing `+`,
-  later entries overwrite earlier ones);
-* `str.lower()` (ASCII rule below 128 — the translator refuses to run if the interpreter deviates —
-  and `Gen.SpdxUnicode.lower` above; the context dependent final-sigma rule is *not* modelled: a token
-  containing U+03A3 is rejected whichever form is chosen, see `C19`);
-* the token → `False/and/or/(/)` skeleton with its one early rejection;
-* `eval` of that skeleton: `pyEval`, an evaluator of Python's expression grammar restricted to these five
-  tokens (disjunction / conjunction / primary with call trailers / parenthesised group / empty tuple),
-  with Python's short-circuit values; validated against the real `eval` by its own correspondence op;
-* the second pass (`WITH` look-behind on the *normalised* list, `+` suffix, `license_ref_allowed`,
-  the dict look-up that can raise `KeyError`), `" ".join`, and the two final `replace`s.
+* `original_tokens` (original case) and `tokens` (after `translate(_ASCII_LOWER)` of the whole padded
+  string — ASCII letters only, `Py.lowerStr`), walked in parallel by `zip`;
+* the first loop: a structure check with a parenthesis depth and the kind of the previous token;
+* the second loop: `WITH` look-behind on the *normalised* list, `+` suffix, `LicenseRef-` handling from
+  the original token through `license_ref_allowed`, table look-ups;
+* `" ".join`, and the two final `replace`s.
 
-Not modelled: the interpreter's resource limits inside `eval` (CPython 3.12 raises `MemoryError`/
-`SyntaxError` for about 200 nested parentheses, which the function turns into a rejection).
+`none` stands for `raise InvalidLicenseExpression`; no other exception site exists in the function
+(the correspondence reports `raw <Name>` if the implementation lets anything else escape).
 -/
 namespace Lic
 open Py
@@ -53,18 +48,6 @@ def kPadR : Str := [32, 41, 32]
 /-- `str.isspace` of one code point = separator of `str.split()` -/
 def isSpace (c : Nat) : Bool := Gen.SpdxUnicode.spaces.contains c
 
-/-- `chr(c).lower()` -/
-def lowerCp (c : Nat) : Str :=
-  if c < 128 then [lowerAscii c]
-  else match Gen.SpdxUnicode.lower.lookup c with
-    | some l => l
-    | none => [c]
-
-/-- `s.lower()` (per code point; see the header for final sigma) -/
-def lower : Str → Str
-  | [] => []
-  | c :: cs => lowerCp c ++ lower cs
-
 /-- `s.replace(chr(c), new)` for a one-character pattern -/
 def replace1 (c : Nat) (new : Str) : Str → Str
   | [] => []
@@ -86,168 +69,76 @@ def split (s : Str) : List Str := splitGo s []
 /-- `raw.replace("(", " ( ").replace(")", " ) ")` -/
 def pad (s : Str) : Str := replace1 cRP kPadR (replace1 cLP kPadL s)
 
-/-- a `dict` built by insertion in list order: a later pair with the same key overwrites -/
-def dictGet : List (Str × Str) → Str → Option Str
-  | [], _ => none
-  | (k', v) :: r, k =>
-    match dictGet r k with
-    | some x => some x
-    | none => if k' == k then some v else none
+/-! ## first loop: the structure check -/
 
-/-- the `license_refs` comprehension over `license_expression.split()` (original case) -/
-def mkRefs : List Str → List (Str × Str)
-  | [] => []
-  | r :: rs =>
-    if startsWith (lower r) kRefLower then (lower r, kRef ++ r.drop 11) :: mkRefs rs else mkRefs rs
-
-/-! ## the skeleton -/
-
-inductive PTok | F | and | or | lp | rp
+/-- `previous`: `"("`, `")"`, `"operator"`, `"with"`, `"license"`, `"exception"` -/
+inductive Kind | lp | rp | op | with | lic | exc
   deriving DecidableEq, Repr, Inhabited
+
+/-- `previous in {")", "license", "exception"}` -/
+def Kind.closes : Kind → Bool
+  | .rp | .lic | .exc => true
+  | _ => false
+
+/-- `previous in {"(", "operator"}` -/
+def Kind.opens : Kind → Bool
+  | .lp | .op => true
+  | _ => false
+
+/-- the loop over `tokens` followed by the final test; `false` = `raise` -/
+def structGo : List Str → Nat → Kind → Bool
+  | [], depth, prev => !(depth > 0 || !prev.closes)
+  | t :: ts, depth, prev =>
+    if t == kLP then prev.opens && structGo ts (depth + 1) .lp
+    else if t == kRP then (prev.closes && depth > 0) && structGo ts (depth - 1) .rp
+    else if t == kOr || t == kAnd then prev.closes && structGo ts depth .op
+    else if t == kWith then prev == .lic && structGo ts depth .with
+    else if prev == .with then structGo ts depth .exc
+    else prev.opens && structGo ts depth .lic
+
+/-! ## second loop -/
 
 /-- `token in {"or", "and", "with", "(", ")"}` -/
 def isGrammar (t : Str) : Bool := t == kOr || t == kAnd || t == kWith || t == kLP || t == kRP
 
-/-- the loop building `python_tokens`; `last` is `python_tokens[-1]` if any; `none` = the early `raise` -/
-def skel : List Str → Option PTok → Option (List PTok)
-  | [], _ => some []
-  | t :: ts, last =>
-    if !isGrammar t then (skel ts (some .F)).map (PTok.F :: ·)
-    else if t == kWith then (skel ts (some .or)).map (PTok.or :: ·)
-    else if t == kLP && (match last with
-        | none => false
-        | some p => !(p == .or || p == .and)) then none
-    else
-      let p : PTok := if t == kOr then .or else if t == kAnd then .and else if t == kLP then .lp else .rp
-      (skel ts (some p)).map (p :: ·)
-
-/-! ## `eval` of a skeleton
-
-Python's grammar on the five tokens:
-
-    disjunction := conjunction ('or' conjunction)*
-    conjunction := primary ('and' primary)*
-    primary     := atom trailer*            trailer := '(' [disjunction] ')'      (a call)
-    atom        := 'False' | '(' ')' | '(' disjunction ')'
-
-Values: `False` and `()` are both falsy, so `a or b` evaluates both and yields `b`, `a and b` yields `a`
-without evaluating `b`; calling either value raises `TypeError` — unless short-circuited away.
-A syntax error anywhere wins (compilation precedes evaluation). -/
-
-/-- `False`, `()`, or "evaluating this raises TypeError" -/
-inductive Val | f | t | e
-  deriving DecidableEq, Repr, Inhabited
-
-/-- what is known about the innermost open parenthesis (or the whole input, for the bottom frame) -/
-structure Frame where
-  /-- opened directly after a primary: an argument list, otherwise a parenthesised atom -/
-  call : Bool
-  /-- nothing read since the opening parenthesis -/
-  fresh : Bool
-  /-- an already completed disjunct raises -/
-  orErr : Bool
-  /-- first primary of the conjunction being read, once that primary is complete -/
-  cVal : Option Val
-  /-- the primary being read (may still get call trailers); `none`: an operand is expected -/
-  pVal : Option Val
-  deriving DecidableEq, Repr
-
-def Frame.open (call : Bool) : Frame := ⟨call, true, false, none, none⟩
-
-/-- value of the disjunction read in a frame whose last primary is `v` -/
-def Frame.value (fr : Frame) (v : Val) : Val := if fr.orErr then .e else fr.cVal.getD v
-
-/-- one token; `none` = SyntaxError -/
-def step : List Frame → PTok → Option (List Frame)
-  | fr :: st, .F =>
-    match fr.pVal with
-    | none => some ({ fr with fresh := false, pVal := some .f } :: st)
-    | some _ => none
-  | fr :: st, .and =>
-    match fr.pVal with
-    | some v => some ({ fr with cVal := some (fr.cVal.getD v), pVal := none } :: st)
-    | none => none
-  | fr :: st, .or =>
-    match fr.pVal with
-    | some v => some ({ fr with orErr := fr.orErr || fr.cVal.getD v == .e, cVal := none, pVal := none } :: st)
-    | none => none
-  | fr :: st, .lp => some (Frame.open fr.pVal.isSome :: { fr with fresh := false } :: st)
-  | fr :: par :: st, .rp =>
-    if fr.fresh then
-      some ({ par with pVal := some (if fr.call then .e else .t) } :: st)
-    else match fr.pVal with
-      | some v => some ({ par with pVal := some (if fr.call then .e else fr.value v) } :: st)
-      | none => none
-  | _, _ => none
-
-def run : List Frame → List PTok → Option (List Frame)
-  | st, [] => some st
-  | st, t :: ts => match step st t with
-    | some st' => run st' ts
-    | none => none
-
-/-- `eval(" ".join(skeleton))`: `none` = SyntaxError, `some .e` = TypeError -/
-def pyEval (ts : List PTok) : Option Val :=
-  match run [Frame.open false] ts with
-  | some [fr] => (match fr.pVal with
-      | some v => some (fr.value v)
-      | none => none)
-  | _ => none
-
-/-! ## the second pass -/
-
-inductive Err | invalid | keyError
-  deriving DecidableEq, Repr
-
-def entryId (e : Gen.SpdxTables.Entry) : Str := e.2.1
-
-/-- `EXCEPTIONS.get(token)` / `LICENSES.get(token)` (`["id"]`) -/
+/-- `EXCEPTIONS[token]["id"]` / `LICENSES[token]["id"]`, `none` if `token not in` the table -/
 def findId (tbl : List Gen.SpdxTables.Entry) (k : Str) : Option Str := (tbl.lookup k).map (·.1)
 
 def allowedCp (c : Nat) : Bool := isAlnumAscii c || c == 46 || c == 45
 
-/-- `license_ref_allowed.match(s)` for `^[A-Za-z0-9.-]*$` (`$` also matches before a final newline) -/
+/-- `license_ref_allowed.match(s)` for `^[A-Za-z0-9.-]+$` (`$` also matches before a final newline) -/
 def refAllowed (s : Str) : Bool :=
-  s.all allowedCp || (s.getLast? == some 10 && s.dropLast.all allowedCp)
+  (!s.isEmpty && s.all allowedCp) ||
+  (s.getLast? == some 10 && !s.dropLast.isEmpty && s.dropLast.all allowedCp)
 
-/-- one non-grammar token of the second pass; `prev` is `normalized_tokens[-1]` if any -/
-def normWord (refs : List (Str × Str)) (prev : Option Str) (token : Str) : Except Err Str :=
+/-- one non-grammar token of the second loop; `prev` is `normalized_tokens[-1]` if any -/
+def normWord (prev : Option Str) (orig token : Str) : Option Str :=
   if prev == some kWithU then
-    match findId Gen.SpdxTables.exceptions token with
-    | some id => .ok id
-    | none => .error .invalid
+    findId Gen.SpdxTables.exceptions token
   else
     let plus := endsWith token [cPlus]
     let final := if plus then token.dropLast else token
     let suffix : Str := if plus then [cPlus] else []
     if startsWith final kRefLower then
-      if !refAllowed final then .error .invalid
-      else match dictGet refs final with
-        | some v => .ok (v ++ suffix)
-        | none => .error .keyError
+      let ref := orig.drop 11
+      if !refAllowed ref then none else some (kRef ++ ref)
     else
-      match findId Gen.SpdxTables.licenses final with
-      | some id => .ok (id ++ suffix)
-      | none => .error .invalid
+      (findId Gen.SpdxTables.licenses final).map (· ++ suffix)
 
+/-- `token.upper()` for a grammar token -/
 def upperOp (t : Str) : Str :=
   if t == kOr then kOrU else if t == kAnd then kAndU else if t == kWith then kWithU else t
 
-/-- the loop building `normalized_tokens` -/
-def normGo (refs : List (Str × Str)) : List Str → Option Str → Except Err (List Str)
-  | [], _ => .ok []
-  | t :: ts, prev =>
+/-- the loop over `zip(original_tokens, tokens)` building `normalized_tokens` -/
+def normGo : List (Str × Str) → Option Str → Option (List Str)
+  | [], _ => some []
+  | (o, t) :: ts, prev =>
     if isGrammar t then
-      match normGo refs ts (some (upperOp t)) with
-      | .ok r => .ok (upperOp t :: r)
-      | .error e => .error e
+      (normGo ts (some (upperOp t))).map (upperOp t :: ·)
     else
-      match normWord refs prev t with
-      | .error e => .error e
-      | .ok w =>
-        match normGo refs ts (some w) with
-        | .ok r => .ok (w :: r)
-        | .error e => .error e
+      match normWord prev o t with
+      | none => none
+      | some w => (normGo ts (some w)).map (w :: ·)
 
 /-- `" ".join(tokens)` -/
 def joinSp : List Str → Str
@@ -258,24 +149,18 @@ def joinSp : List Str → Str
 /-- `.replace("( ", "(").replace(" )", ")")` -/
 def tighten (s : Str) : Str := replace2 32 41 [41] (replace2 40 32 [40] s)
 
-/-- everything after tokenisation: `toks` are the original-case tokens, `ltoks` the lower-cased ones -/
-def canonT (toks ltoks : List Str) : Except Err Str :=
-  match skel ltoks none with
-  | none => .error .invalid
-  | some sk =>
-    if pyEval sk != some .f then .error .invalid
-    else match normGo (mkRefs toks) ltoks none with
-      | .ok r => .ok (tighten (joinSp r))
-      | .error e => .error e
+/-- everything after tokenisation: `orig` are the original-case tokens, `toks` the lower-cased ones -/
+def canonT (orig toks : List Str) : Option Str :=
+  if !structGo toks 0 .lp then none
+  else (normGo (orig.zip toks) none).map fun r => tighten (joinSp r)
 
-/-- `canonicalize_license_expression(raw)`; `.error .invalid` = `InvalidLicenseExpression`,
-`.error .keyError` = a raw `KeyError` escapes -/
-def canon (raw : Str) : Except Err Str :=
-  if raw.isEmpty then .error .invalid
+/-- `canonicalize_license_expression(raw)`; `none` = `InvalidLicenseExpression` -/
+def canon (raw : Str) : Option Str :=
+  if raw.isEmpty then none
   else
     let padded := pad raw
-    canonT (split padded) (split (lower padded))
+    canonT (split padded) (split (lowerStr padded))
 
-def accepts (raw : Str) : Bool := match canon raw with | .ok _ => true | .error _ => false
+def accepts (raw : Str) : Bool := (canon raw).isSome
 
 end Lic
